@@ -1367,3 +1367,107 @@ def c08_spi(entry, pixel, nodata, window=None, groups=None, cal=None, shape="mod
                 probs.append(f"outlier x{factor:g}: observation {obs[a]:.4g} -> {vals[a]} but larger observation {obs[a + 1]:.4g} -> {vals[a + 1]}")
                 break
     return {"violates": bool(probs), "why": probs[:6]}
+
+
+# ------------------------------------------------------------------ C09
+def _times(times):
+    import pandas as pd
+    return pd.DatetimeIndex([pd.Timestamp("2000-01-01") + pd.Timedelta(days=int(t)) for t in times])
+
+
+def _ts(v):
+    import pandas as pd
+    return pd.Timestamp("2000-01-01") + pd.Timedelta(days=int(v))
+
+
+def c09_indices(times, begin, end, groups=None, num_groups=None):
+    from hdc.algo.utils import get_calibration_indices
+    tix = _times(times)
+    if groups is None:
+        a, b = get_calibration_indices(tix, (_ts(begin), _ts(end)))
+        return {"value": [int(a), int(b)]}
+    res = get_calibration_indices(tix, (_ts(begin), _ts(end)), np.array(groups, dtype="int16"), num_groups)
+    return {"value": np.asarray(res).tolist()}
+
+
+def c09_window(kind, times=None, begin=None, end=None, groups=None, pass_num_groups=True, part=None, order=None):
+    import xarray as xr
+    import hdc.algo  # noqa
+    from hdc.algo.utils import get_calibration_indices, to_linspace
+    probs = []
+    if kind == "linspace":
+        k = max(part) + 1
+        # labels realised as strings whose sort order is `order`
+        names = [None] * k
+        for rank_, j in enumerate(order):
+            names[j] = f"{rank_:02d}-grp"
+        x = np.array([names[p] for p in part], dtype="str")
+        codes, keys = to_linspace(x)
+        rank = {order[j]: j for j in range(k)}
+        if [int(c) for c in codes] != [rank[p] for p in part] or list(keys) != sorted(set(names)):
+            probs.append(f"to_linspace({list(x)}) -> {list(codes)}, {keys}")
+        return {"violates": bool(probs), "why": probs}
+    T = len(times)
+    tix = _times(times)
+    bb = times[0] if begin is None else begin
+    ee = times[-1] if end is None else end
+    inside = [bb <= t <= ee for t in times]
+    if kind == "indices":
+        if groups is None:
+            a, b = get_calibration_indices(tix, (_ts(begin), _ts(end)))
+            if [a <= i < b for i in range(T)] != inside:
+                probs.append(f"indices [{a},{b}) for window {begin}..{end} on {times}")
+        else:
+            ng = max(groups) + 1
+            res = np.asarray(get_calibration_indices(tix, (_ts(begin), _ts(end)), np.array(groups, dtype="int16"), ng if pass_num_groups else None))
+            for g in range(ng):
+                mem = [i for i in range(T) if groups[i] == g]
+                if [res[g, 0] <= k < res[g, 1] for k in range(len(mem))] != [inside[i] for i in mem]:
+                    probs.append(f"group {g}: indices {res[g].tolist()} for window {begin}..{end}, member steps {[times[i] for i in mem]}")
+        return {"violates": bool(probs), "why": probs[:3]}
+    # accessor: compare with per-group ungrouped SPI under the same window and check attrs / errors
+    rng = np.random.default_rng(53)
+    data = np.round(rng.gamma(2.0, 40.0, (T, 1, 2))).astype("int16") + 1
+    da = xr.DataArray(data, dims=("time", "y", "x"), coords={"time": tix}, attrs={"nodata": -9999})
+    kw = {}
+    if begin is not None:
+        kw["calibration_begin"] = _ts(begin)
+    if end is not None:
+        kw["calibration_end"] = _ts(end)
+    if groups is not None:
+        kw["groups"] = [str(g) for g in groups]
+    if groups is None:
+        ok_window = sum(inside) >= 2
+    else:
+        ok_window = all(sum(1 for i in range(T) if groups[i] == g and inside[i]) >= 2 for g in range(max(groups) + 1))
+    try:
+        res = da.hdc.algo.spi(**kw)
+        err = None
+    except Exception as ex:  # noqa
+        res, err = None, type(ex).__name__
+    if not ok_window:
+        if err != "ValueError":
+            probs.append(f"invalid window {begin}..{end} on {times}: expected ValueError, got {err}")
+        return {"violates": bool(probs), "why": probs}
+    if err is not None:
+        return {"violates": True, "why": [f"valid window raised {err}"]}
+    first = [t for t, c in zip(times, inside) if c][0]
+    last = [t for t, c in zip(times, inside) if c][-1]
+    if res.attrs.get("spi_calibration_begin") != str(_ts(first)) or res.attrs.get("spi_calibration_end") != str(_ts(last)):
+        probs.append(f"attrs {res.attrs.get('spi_calibration_begin')} .. {res.attrs.get('spi_calibration_end')}")
+    from hdc.algo.ops.stats import gammastd_yxt
+    out = res.transpose("y", "x", "time").values
+    cube = np.moveaxis(data, 0, -1)
+    if groups is None:
+        idx = [i for i, c in enumerate(inside) if c]
+        ref = gammastd_yxt(cube, -9999, cal_start=idx[0], cal_stop=idx[-1] + 1)
+        if not np.array_equal(out, ref):
+            probs.append("ungrouped result differs from the kernel run on the inclusive window")
+    else:
+        for g in range(max(groups) + 1):
+            mem = [i for i in range(T) if groups[i] == g]
+            sel = [k for k, i in enumerate(mem) if inside[i]]
+            ref = gammastd_yxt(cube[:, :, mem], -9999, cal_start=sel[0], cal_stop=sel[-1] + 1)
+            if not np.array_equal(out[:, :, mem], ref):
+                probs.append(f"group {g}: grouped result differs from the ungrouped SPI of the group's sub-series")
+    return {"violates": bool(probs), "why": probs[:3]}
